@@ -189,6 +189,8 @@ Proof.
     destruct (sb_prepare_ok n b W) as (k & -> & A & B). cbn [rbind fst].
     destruct b as [d s]; cbn [sbdata sbsize] in *.
     destruct (sb_ext_wf d s k W B ltac:(lia)) as (W' & V'). eauto.
+  - (* destroy *)
+    eexists; split; [reflexivity|]. split; [left; auto|reflexivity].
 Qed.
 
 Fixpoint sb_run (ops : list bop) (b : sb) : res (sb * list bret) :=
